@@ -196,6 +196,7 @@ const (
 	OpSeeIface   // note the Labeler visible through DI
 	OpInvoke     // c.Invoke(func(Token) ...) from inside the handler: a nested resolution in request scope
 	OpApply      // c.Apply(&struct{... `inject`}) in request scope
+	OpSeePath    // note the request path and method the handler sees
 	OpReplaceCtx // install a derived cancellable context as the request's context (what a timeout middleware does); later cancels hit that one
 	opMax
 )
